@@ -104,6 +104,49 @@ def check(ctx, replay=None):
             elif cls == "lowering-error" and "Lowering error in Op::f" not in q.stderr and viol < 3:
                 viol += 1
                 ctx.violation("direct:error-context", {"bridge": src, "what": "the lowering error does not carry Op::f as its context", "stderr": q.stderr[-500:]}, True)
+    # trait methods: their parameters obey the callback-parameter rules (backends with trait support; lifetimes elided, as traits take no generics)
+    tr_jobs = []
+    for ti, t in enumerate(gate_run.types(depth2=False)):
+        if t[0] == "res":
+            continue
+        r = gate_run.rust_ty(t).replace("&'a mut ", "&mut ").replace("&'a ", "&")
+        if "'a" in r:
+            continue
+        src = gate_run.PRELUDE + f"    pub trait Tr {{ fn m(&self, x: {r}); }}\n    impl Op {{ pub fn f(&self, t: impl Tr) {{}} }}\n}}\n"
+        path = os.path.join(d9, f"t{ti}.rs"); open(path, "w").write(src)
+        for b in [b for b in BACKENDS if flags[b].get("traits")]:
+            for u in (False, True):
+                tr_jobs.append((t, r, src, path, b, u))
+    for (t, r, src, path, b, u) in tr_jobs:
+        q = e2e.run_tool(b, path, os.path.join(d9, f"out_{b}"), config=gate_run.CFG + (["unsafe_references_in_callbacks=true"] if u else []))
+        cls = e2e.classify_tool(q)
+        if cls not in ("ok", "lowering-error", "backend-error"):
+            continue
+        fl = flags[b]
+        cfl = f"(mkFlags {cbool(fl['option'])} {cbool(fl['callbacks'])} {cbool(fl['static_slices'])} {cbool(u)})"
+        goals.append(f"Bool.eqb (cb_param_ok {cfl} {gate_run.coq_ty(t)}) {cbool(cls != 'lowering-error')}")
+        meta.append((None, b, u, cls, src))
+    # self parameters: which receivers each kind of type may have
+    decls = {"NOpaque": ("    #[diplomat::opaque]\n    pub struct T(pub u8);\n", "T"), "NStruct": ("    pub struct T { pub a: u8 }\n", "T"),
+             "NZst": ("    pub struct T {}\n", "T"), "NOutStruct": ("    #[diplomat::opaque]\n    pub struct O(pub u8);\n    #[diplomat::out]\n    pub struct T { pub o: Box<O> }\n", "T"),
+             "NEnum": ("    pub enum T { A, B }\n", "T")}
+    k = 0
+    for kind, (decl, tn) in decls.items():
+        for recv, selfk in (("self", "SelfVal"), ("&self", "SelfRef"), ("&mut self", "SelfRef")):
+            src = "#[diplomat::bridge]\nmod ffi {\n" + decl + f"    impl {tn} {{ pub fn f({recv}) -> u8 {{ 0 }} }}\n}}\n"
+            path = os.path.join(d9, f"s{k}.rs"); open(path, "w").write(src); k += 1
+            q = e2e.run_tool("c", path, os.path.join(d9, "out"))
+            cls = e2e.classify_tool(q)
+            if cls == "panic":
+                continue                                   # C15's business (methods on zero-sized structs are unimplemented!())
+            if cls in ("ok", "lowering-error"):
+                goals.append(f"Bool.eqb (accept_self {kind} {selfk}) {cbool(cls == 'ok')}")
+                meta.append((None, "c", False, cls, src))
+                want_ok = {"NOpaque": selfk == "SelfRef", "NStruct": selfk == "SelfVal", "NEnum": selfk == "SelfVal", "NZst": False, "NOutStruct": False}[kind]
+                if (cls == "ok") != want_ok and viol < 3:
+                    viol += 1
+                    ctx.violation("direct:self-receiver", {"bridge": src, "what": f"diplomat-tool {'accepts' if cls == 'ok' else 'rejects'} `{recv}` on a {kind[1:].lower()} type; "
+                                  "opaques are passed by pointer (so only behind a reference), structs and enums by value (so never behind one)"}, True)
     fails = run_shards(PROP, HEADER, goals, per_shard=400) if goals else []
     seen = set()
     for f in fails:
@@ -119,6 +162,12 @@ def check(ctx, replay=None):
                             "what": f"diplomat-tool {b} {'accepts' if cls != 'lowering-error' else 'rejects'} `{gate_run.rust_ty(t)}` in position {pos}, "
                                     "the documented rules (Gate/Spec.v, equivalent to Gate/Model.v) say the opposite",
                             "bridge": gate_run.bridge(pos, t)}, True)
+    other = [f for f in fails if meta[f][0] is None]
+    if other and not ctx.violations:
+        f = other[0]
+        ctx.violation("gate:fixed-shapes", {"bridge": meta[f][4], "backend": meta[f][1], "unsafe_references_in_callbacks": meta[f][2], "what":
+                      f"diplomat-tool {meta[f][1]} answers `{meta[f][3]}` on this bridge; Gate/Model.v (return-lifetime rules, write position, receivers, "
+                      f"trait method parameters) says otherwise: {goals[f][:300]}"}, True)
     return batch_evidence(
         ctx, PROP, phase, goals, fails, len(goals), len({(c[0], json.dumps(c[1])) for c in cs}),
         "exhaustive enumeration of the AST type grammar to depth 2 (4 primitives, Ordering, unit, the five kinds of named types, borrowed / 'static / owned "
@@ -129,7 +178,7 @@ def check(ctx, replay=None):
         "checked on rejections. One Coq goal per (case, backend, setting). distinct_nontrivial = distinct (position, type) pairs",
         "Modelled, not verified: lower_type, lower_out_type, lower_return_type, lower_callback_param, the struct / out-struct field checks and "
         "is_ffi_safe, transcribed into Gate/Model.v; Gate/Spec.v states the rules declaratively and the two are proved equivalent. Lifetime rules (R9) "
-        "are C04's, traits are not enumerated, self parameters / ZST methods are modelled and proved but not enumerated here; write positions are enumerated for lists up to length 4",
+        "are C04's, traits are not enumerated, receivers (self / &self / &mut self) are enumerated for each kind of type; write positions are enumerated for lists up to length 4",
         [{"pos": cs[0][0], "rust": gate_run.rust_ty(cs[0][1])}, {"pos": cs[len(cs) // 2][0], "rust": gate_run.rust_ty(cs[len(cs) // 2][1])},
          {"pos": cs[-1][0], "rust": gate_run.rust_ty(cs[-1][1])}],
         ["the macro's own field check (gen_bridge panics on non-FFI-safe fields) is exercised by C09/C01's crate builds"],
